@@ -269,6 +269,10 @@ class Gen:
     def la(self):
         r = self.r
         stem = r.choice(STEMS[:14]).replace('|', '').replace('[', '').replace(']', '')
+        if r.random() < 0.35:
+            # names with an underscore (libgdk_pixbuf-2.0), '+' and mixed case: every character class
+            # a real soname uses must survive the dlname pattern
+            stem = r.choice(['gdk_pixbuf-2.0', 'my_plugin', 'a_b_c', 'X_y', 'stdc++', 'foo_', 'Qt5_Core'])
         so = 'lib%s.so.%d' % (stem, r.randint(0, 9))
         kind = r.choice(['plain', 'plain', 'plain', 'path', 'path', 'empty', 'absent', 'plain_dll'])
         if kind == 'plain':
